@@ -4,4 +4,18 @@ namespace PsdVerif.Generated.Rle
 def maxLenPy : Nat := 127
 /-- `MAX_LEN` in compression/_rle.pyx (unsigned char) -/
 def maxLenPyx : Nat := 127
+/-- The statement of compression/__init__.py that binds `rle_impl`, from the AST: number of such
+statements, modules the `try` body imports as `rle_impl`, exception classes caught, modules the handler
+imports as `rle_impl`, statements of body / handler that are not that import, `else`/`finally` statements,
+and the names the handler READS that no earlier module-level statement (nor the handler itself, nor
+builtins) binds - a NameError in exactly the configuration in which the fallback runs. -/
+def selStatements : Nat := 1
+def selTryImports : List String := ["_rle"]
+def selCatches : List String := ["ImportError"]
+def selHandlerImports : List String := ["rle"]
+def selOtherStatements : Nat := 0
+def selUnboundInHandler : List String := []
+/-- everything in rle.py through which one call could influence a later one (`global` declarations,
+module-level mutable objects read by a function, memoising decorators, mutable defaults) -/
+def rleModuleState : List String := []
 end PsdVerif.Generated.Rle
